@@ -129,4 +129,36 @@ func init() {
 			{Pkg: "kxps", Func: "HarnessC20_Kbps", FP: true, Labels: []string{"kbps"}, Bound: "rate = float64(d)*1000/window_ms for symbolic d > 0; accessors before Start and after Close"},
 		},
 	})
+	rtmpAssume := append([]string{
+		"transport = in-harness byte pipe; read segmentation forks over: whole, 1 byte per read (61 for long streams), one split point next to every message/chunk boundary (thorough: every offset of short streams)",
+		"raw data messages use types other than 1 (Set Chunk Size, sent through WritePacket), 2 (Abort, excluded by the property), 4 and 5 (interpreted by the reader, covered with well-formed bodies in C03)",
+		"timestamps below 2^31 (the property's validity predicate)",
+	}, commonAssumptions...)
+	reg(&propSpec{
+		ID:          "C01",
+		Rule:        "Harnesses in harness/rtmp/c01.go: header generators vs header parsers with all fields symbolic; sessions of messages with symbolic fields/payload bytes and a symbolic announced chunk size; simple handshake.",
+		Assumptions: rtmpAssume,
+		Harnesses: []harnessSpec{
+			{Pkg: "rtmp", Func: "HarnessC01_Header", Labels: []string{"hdr-ext", "hdr-plain"},
+				Bound: "timestamp 31 symbolic bits (so 0xFFFFFE/0xFFFFFF/0x1000000/2^31-1 are decided by the solver), payload length 24 symbolic bits (65535/65536/2^24-1 included), type 8 bits, stream id 32 bits, chunk stream 2..8"},
+			{Pkg: "rtmp", Func: "HarnessC01_Session", Labels: []string{"session"},
+				Bound:  "1-2 messages (first payload 1-5 symbolic bytes, second 1 or 3), each optionally preceded by WritePacket(SetChunkSize) with the size symbolic in [1, 2^31-1]; messages built by NewStreamMessage or NewMessage; type/stream id/timestamp symbolic",
+				BoundT: "1-3 messages with payloads of 1-10 symbolic bytes; every split offset"},
+			{Pkg: "rtmp", Func: "HarnessC01_Handshake", Labels: []string{"handshake"},
+				Bound: "C0C1/S0S1S2/C2 exchange with fixed pseudo-random bytes, transport chunk in {whole,1,7,1535,1536,1537}, then one message with symbolic fields"},
+		},
+	})
+	reg(&propSpec{
+		ID:          "C02",
+		Rule:        "Harnesses in harness/rtmp/c02.go: an independent chunker written from RTMP 1.0 5.3.1 produces the byte stream; header types, basic-header forms, interleaving order fork; ids, timestamps/deltas, types, stream ids, payload bytes and the chunk size are symbolic.",
+		Assumptions: append([]string{"a fmt-3 chunk that starts a NEW message right after an extended-timestamp header is ambiguous in the specification and not generated", "no Abort messages"}, rtmpAssume...),
+		Harnesses: []harnessSpec{
+			{Pkg: "rtmp", Func: "HarnessC02_Headers", Labels: []string{"headers", "extdelta"},
+				Bound: "one chunk stream (form 1/2/3 forked, id symbolic in 3..63 / 64..319 / 64..65599), 2 messages (thorough 2-3), later ones with header type 0/1/2/3 forked; timestamps and deltas 32 symbolic bits (extended timestamps are solver choices); payload 1-4 symbolic bytes"},
+			{Pkg: "rtmp", Func: "HarnessC02_Interleave", Labels: []string{"interleave"},
+				Bound: "Set Chunk Size with symbolic size in [1,2^31-1], two chunk streams (forms forked, ids symbolic and distinct), one message of 1-4 bytes each, all interleavings of their chunks"},
+			{Pkg: "rtmp", Func: "HarnessC02_Reject", Labels: []string{"reject", "reject-librtmp-ok"},
+				Bound: "one rule violation per stream: fresh chunk stream starting with fmt 1/2/3; fmt 0 inside an unfinished message; length changed mid-message (other length 24 symbolic bits); plus the documented librtmp ping which must be accepted"},
+		},
+	})
 }
